@@ -174,17 +174,26 @@ class FileLock:
                 except (IOError, OSError):
                     pass
             else:
-                if FCNTL_AVAILABLE:
-                    fcntl.flock(self._lock_fd, fcntl.LOCK_UN)
-                elif MSVCRT_AVAILABLE:
-                    msvcrt.locking(self._lock_fd, msvcrt.LK_UNLCK, 1)  # type: ignore[attr-defined]
-                os.close(self._lock_fd)
-
-            self._lock_fd = None
-            self._locked = False
+                try:
+                    if FCNTL_AVAILABLE:
+                        fcntl.flock(self._lock_fd, fcntl.LOCK_UN)
+                    elif MSVCRT_AVAILABLE:
+                        msvcrt.locking(self._lock_fd, msvcrt.LK_UNLCK, 1)  # type: ignore[attr-defined]
+                finally:
+                    # Closing the descriptor drops the kernel lock even when the
+                    # explicit unlock failed; skipping it would leave the lock
+                    # held by a descriptor nobody will ever close.
+                    os.close(self._lock_fd)
         except Exception:
             # Best effort cleanup
             pass
+        finally:
+            # Whatever happened above, this instance no longer owns the lock:
+            # keeping _locked/_lock_fd set after a failed release would make
+            # every later acquire on this table time out against our own
+            # leaked descriptor.
+            self._lock_fd = None
+            self._locked = False
 
     def __enter__(self) -> "FileLock":
         """Context manager entry."""
